@@ -579,7 +579,6 @@ func (f *Frame) encodeBody(entryReach string, st *State) (results []*Val, exitSt
 			}
 			if len(sts) == 0 {
 				f.reach[b] = "false"
-				f.exit[b] = st.clone()
 				continue
 			}
 			r := or(conds...)
@@ -590,7 +589,13 @@ func (f *Frame) encodeBody(entryReach string, st *State) (results []*Val, exitSt
 		if li := f.loopOf[b]; li != nil {
 			f.enterLoop(li, cur)
 		}
+		if f.reach[b] == "false" {
+			continue // statically dead block: no state, no values
+		}
 		f.encodeBlock(b, cur)
+		if f.reach[b] == "false" {
+			continue // control never leaves this block (panic / callee that never returns)
+		}
 		f.exit[b] = cur
 		// back edges leaving this block: invariant preservation
 		for _, s := range b.Succs {
